@@ -237,6 +237,27 @@ def expect_violated(module, consts, invariant, workers=4, timeout=600):
     raise ToolError(f"witness {invariant} of {module} is not violated: the model does not reach the situation it is meant to exhibit")
 
 
+def run_tlapm(relpath, timeout=1500):
+    """Check a TLAPS proof module under spec/ with tlapm (unbounded, machine-checked). Returns a dict for the evidence;
+    any unproved obligation is a tool error (proofs never look at the code)."""
+    t0 = time.time()
+    d = os.path.join(SPEC, os.path.dirname(relpath))
+    cache = os.path.join(d, ".tlacache")
+    shutil.rmtree(cache, ignore_errors=True)
+    try:
+        r = subprocess.run(["tlapm", "--threads", "8", os.path.basename(relpath)], cwd=d, capture_output=True, text=True, timeout=timeout)
+    except subprocess.TimeoutExpired:
+        raise ToolError(f"tlapm on {relpath} timed out after {timeout}s")
+    finally:
+        shutil.rmtree(cache, ignore_errors=True)
+    out = r.stdout + r.stderr
+    m = re.search(r"All (\d+) obligations? proved", out)
+    if r.returncode != 0 or not m:
+        raise ToolError(f"tlapm on {relpath} failed (rc={r.returncode}):\n" + "\n".join(l for l in out.splitlines() if "ERROR" in l or "obligations" in l)[:1500])
+    log(f"[tlapm] {relpath}: all {m.group(1)} obligations proved, {time.time()-t0:.1f}s")
+    return dict(module=relpath, obligations_proved=int(m.group(1)), seconds=round(time.time() - t0, 1), prover="tlapm 1.6.0-pre (SMT, Zenon, Isabelle, PTL back ends)")
+
+
 def run_apalache(module, inv, timeout=600):
     """Supplementary unbounded lemma (Apalache). Never a verdict: returns a short status string for the evidence."""
     d = os.path.join(SPEC, "apalache")
